@@ -131,6 +131,25 @@ func runC06(c *ev.Ctx) {
 			cases = append(cases, igCase{TwoA: k, X: x})
 		}
 	}
+	// every shape k/2, k = 1..10000, at a handful of arguments (thresholds such as "use Gamma(a) below
+	// 172" are properties of single shapes; sampling shapes cannot find them)
+	{
+		fr := []float64{0.5, 0.85, 1.0, 1.1, 2.0}
+		if c.Thorough() {
+			fr = []float64{0.1, 0.5, 0.7, 0.85, 0.95, 1.0, 1.05, 1.1, 1.3, 2.0, 4.0}
+		}
+		for k := 1; k <= 10000; k++ {
+			if c.Lite() && k%7 != 0 {
+				continue
+			}
+			a := float64(k) / 2
+			for _, f := range fr {
+				cases = append(cases, igCase{TwoA: k, X: a * f})
+			}
+			cases = append(cases, igCase{TwoA: k, X: a - 2*math.Sqrt(a)}, igCase{TwoA: k, X: a + 3*math.Sqrt(a)})
+		}
+		c.Count("shapes_enumerated_completely", 10000)
+	}
 	parallel(len(cases), func(i int) {
 		cs := cases[i]
 		bad, eot, msg, want := evalIgW(cs)
@@ -152,7 +171,7 @@ func runC06(c *ev.Ctx) {
 		}
 	})
 	igamcHammer(c, seed)
-	c.Note("shapes", fmt.Sprintf("k/2 for every k<=128, {255,256,511,1000,2000,4001,6000,8000,9999,10000} and %d seeded k<=10000", nSeeded))
+	c.Note("shapes", fmt.Sprintf("every k/2 for k<=10000 at 7 arguments; densely: k/2 for every k<=128, {255,256,511,1000,2000,4001,6000,8000,9999,10000} and %d seeded k<=10000", nSeeded))
 }
 
 // igamcHammer: the function is pure, so concurrent callers must get exactly what a lone caller gets.
